@@ -947,6 +947,7 @@ func runCase(c Case, timeout time.Duration) (res Result) {
 		if res.Inconclusive == "" && !(res.Created && len(res.Obs) == 0) {
 			break
 		}
+		timeout *= 3 // second and last attempt with a generous bound (overloaded machine)
 	}
 	ev := []map[string]any{{"ev": "Case", "a": c.A}}
 	switch {
